@@ -3,6 +3,7 @@
 mod chars;
 mod layoutcmd;
 mod matchcmd;
+mod utf32cmd;
 
 fn main() {
     let args: Vec<String> = std::env::args().collect();
@@ -11,6 +12,8 @@ fn main() {
         "dump-std" => chars::dump_std(),
         "chars-sweep" => chars::sweep(args[2].parse().unwrap(), args[3].parse().unwrap()),
         "layout" => layoutcmd::run(&args[2]),
+        "utf32-seg" => utf32cmd::seg(&args[2]),
+        "utf32" => utf32cmd::run(&args[2]),
         "match" => matchcmd::run(&args[2], args.get(3).map_or(false, |s| s == "fresh")),
         _ => {
             eprintln!("usage: hm dump-std | chars-sweep [limit]");
